@@ -50,13 +50,16 @@ ONE = """  ensures one: dp(c) == old(dp(c)) + 1 || dd(c)
   ensures sticky: old(dd(c)) ==> dd(c)"""
 ZERO = """  ensures none: dp(c) == old(dp(c)) || dd(c)
   ensures sticky: old(dd(c)) ==> dd(c)"""
+# (lkeep: whether a loop keeps the value of its last iteration is fixed when its jump set is created;
+# nothing assigns the field afterwards)
 # jump records (ghost(jdepth, jkey(c, offset)): the depth on the path that takes the jump whose operand
 # is at `offset`, written by emitJump) of this compiler below the current end of the code are kept:
 # code is only ever appended, and a new jump's operand lies beyond the old end
 JKEEP = """
   ensures mono: clen(c) >= old(clen(c))
-  ensures jkeep: forall k mathint :: jkey(c, 0) <= k && k < jkey(c, old(clen(c))) ==> ghost(jdepth, k) == old(ghost(jdepth, k))"""
-JINV = "(clen(c) >= old(clen(c))) && (forall k mathint :: jkey(c, 0) <= k && k < jkey(c, old(clen(c))) ==> ghost(jdepth, k) == old(ghost(jdepth, k)))"
+  ensures jkeep: forall k mathint :: jkey(c, 0) <= k && k < jkey(c, old(clen(c))) ==> ghost(jdepth, k) == old(ghost(jdepth, k))
+  ensures lkeep: forall s *bytecodeLoopJumpSet :: old(allocated(s)) ==> s.returnsValueFromLastIteration == old(s.returnsValueFromLastIteration)"""
+JINV = "(clen(c) >= old(clen(c))) && (forall k mathint :: jkey(c, 0) <= k && k < jkey(c, old(clen(c))) ==> ghost(jdepth, k) == old(ghost(jdepth, k))) && (forall s *bytecodeLoopJumpSet :: old(allocated(s)) ==> s.returnsValueFromLastIteration == old(s.returnsValueFromLastIteration))"
 HEAD = "  props C29\n  nosafety\n  noterm\n  requires c != nil"
 
 hand = {
@@ -113,7 +116,8 @@ special = {
 ABORT_SITES = {'compileDeferExpressionNode': ('compileFunction', 'closureCompiler'),
                'compileGoExpressionNode': ('compileFunctionStatements', 'closureCompiler'),
                'compileClosureLiteralNode': ('compileFunctionStatements', 'closureCompiler'),
-               'compileMacroBoundaryNode': ('compileStatementsWithResult', '@scope')}
+               'compileMacroBoundaryNode': ('compileStatementsWithResult', '@scope'),
+               'compileBreakExpressionNode': ('countFinallyInLoop', '@break')}
 PURE = {'nodeIsCompilable', 'resolve', 'typeOf', 'isNestedInFinally'}
 
 callees = {}
@@ -159,6 +163,20 @@ for name in sorted(callees):
         # that the nested compiler carries this compiler's abort-check flag before it compiles
         # anything; the stack accounting of the node stays an assumption (ghostdef)
         callee, var = ABORT_SITES[name]
+        if var == "@break":
+            # C29: a break always leaves exactly one value (the loop's result: the given one or nil)
+            # on top when its jump sequence starts
+            out.append("  props C29")
+            out.append("  nosafety")
+            out.append("  partial")
+            out.append("  requires c != nil")
+            out.append("  assigns everything")
+            proto = (PROTO if 'valueIsIgnored' in params else ONE) + JKEEP
+            out.append(proto.replace("  ensures ", "  ensures ghostdef "))
+            out.append("  assert before %s#1: ghost(depth, c) == old(ghost(depth, c)) + 1 || ghost(dead, c) == 1" % callee)
+            out.append("")
+            nleaf += 1
+            continue
         if var == "@scope":
             # C31: the expansion of a macro is compiled inside a scope of its own, so that a local
             # it declares gets a slot of its own and cannot overwrite a caller's local of the same name
